@@ -328,6 +328,7 @@ pub fn run_pool_with_exe(
                 let Some((idx, shard)) = next else { break };
                 let mut cmd = Command::new(&exe);
                 cmd.arg(&property).arg("--tier").arg(tier.as_str()).arg("--worker").arg(&shard).args(&extra);
+                cmd.env("RUST_BACKTRACE", "0");
                 for (k, v) in &envs {
                     cmd.env(k, v);
                 }
@@ -369,9 +370,10 @@ pub fn run_pool_with_exe(
                     .and_then(|l| serde_json::from_str::<Value>(&l["RESULT ".len()..]).ok());
                 use std::os::unix::process::ExitStatusExt;
                 let tail: String = {
+                    // head and tail: the panic message comes first, the abort reason last
                     let lines: Vec<&str> = se.lines().collect();
                     let n = lines.len();
-                    lines[n.saturating_sub(30)..].join("\n")
+                    if n <= 40 { lines.join("\n") } else { [&lines[..20], &["..."][..], &lines[n - 20..]].concat().join("\n") }
                 };
                 out.lock().unwrap().push((
                     idx,
